@@ -265,19 +265,28 @@ class Pool:
         it = iter(tasks)
         pending = 0
         done = False
+        # an input whose worker gave no answer in time is run once more, alone, after everything else (a worker starved of CPU by
+        # whatever else runs on the machine looks like a hang from here; a real hang -- a loop, or threads blocking each other
+        # without using any CPU -- times out again)
+        retry, retried = [], set()
         while True:
             for w in self.workers:
-                if w['task'] is None and not done:
-                    try:
-                        t = next(it)
-                    except StopIteration:
-                        done = True
+                if w['task'] is None:
+                    t = None
+                    if not done:
+                        try:
+                            t = next(it)
+                        except StopIteration:
+                            done = True
+                    if t is None and done and retry and pending == 0:
+                        t = retry.pop(0)
+                    if t is None:
                         break
                     w['task'] = t
                     w['deadline'] = time.time() + 4 * cpu_budget(len(t[2]), t[1]) + 5
                     w['conn'].send_bytes(pickle.dumps((t[1], t[2])))
                     pending += 1
-            if pending == 0 and done:
+            if pending == 0 and done and not retry:
                 return
             ready = wait([w['conn'] for w in self.workers if w['task'] is not None], timeout=0.5)
             now = time.time()
@@ -307,6 +316,11 @@ class Pool:
                     pending -= 1
                     if rss1 > (1 << 30):
                         self._replace(i)          # high-water mark is sticky: start afresh
+                elif now > w['deadline'] and repr(key) not in retried:
+                    retried.add(repr(key))
+                    retry.append(w['task'])
+                    self._replace(i)
+                    pending -= 1
                 elif now > w['deadline']:
                     on_result(key, kind, data, dict(outcome='timeout', cpu=None, rss=None,
                                                     bad=f'no result after {now - w["deadline"] + 4 * cpu_budget(len(data), kind) + 5:.0f}s wall clock for {len(data)} input bytes (killed)'))
